@@ -78,9 +78,8 @@ type c17Case struct {
 	// QAddPath: the RTC peer Q is sent up to two paths per VPN destination (ADD-PATH): what it is told and what is
 	// withdrawn from it when a membership goes covers every path, not only the best one
 	QAddPath bool `json:"q_add_path,omitempty"`
-	// QSpecific lets an ADD-PATH Q announce memberships for specific targets (never generated: known finding C17-K2,
-	// membership changes for a specific target only consider the best path of a destination whose paths were learned
-	// without ADD-PATH); failures get the suffix "-addpath-specific".  Without it Q uses the default membership only.
+	// QSpecific: (no longer used; once marked the histories in which an ADD-PATH Q announced memberships for specific
+	// targets, which finding C17-F5 concerned; kept so that the saved case still parses)
 	QSpecific bool `json:"q_specific,omitempty"`
 }
 
@@ -266,9 +265,6 @@ func (r *c17Run) logf(f string, a ...any) { r.log = append(r.log, fmt.Sprintf(f,
 func (r *c17Run) fail(sig, f string, a ...any) *verifkit.Failure {
 	if r.c.FreeRD {
 		sig += "-cross-rd"
-	}
-	if r.c.QAddPath && r.c.QSpecific {
-		sig += "-addpath-specific"
 	}
 	return verifkit.Failf(sig, "%s\n  history:\n   %s", fmt.Sprintf(f, a...), strings.Join(r.log, "\n   "))
 }
@@ -599,9 +595,6 @@ func (r *c17Run) apply(op c17Op) *verifkit.Failure {
 		}
 		r.logf("CE %d withdraws %s id=%d", op.CE, c17Prefix(op.A), id)
 	case c17Member, c17Unmember:
-		if r.c.QAddPath && !r.c.QSpecific {
-			op.A = -1 // (see QSpecific)
-		}
 		origin := []uint32{65002, 65077}[op.Origin]
 		var nlri *bgp.RouteTargetMembershipNLRI
 		if op.A < 0 {
